@@ -1054,7 +1054,10 @@ func tdCtor(c *Ctx, rule, path, short string) {
 	}
 	t := newTDUnit(u, fn, self, map[*ssa.Function]bool{rrg: true})
 	var bad []string
-	rf := t.calls(func(c *ssa.Call) bool { sc := c.Call.StaticCallee(); return sc != nil && sc.Name() == "ReadFooter" && u.pkgPathOf(sc) == rtPath })
+	rf := t.calls(func(c *ssa.Call) bool {
+		sc := c.Call.StaticCallee()
+		return sc != nil && sc.Name() == "ReadFooter" && u.pkgPathOf(sc) == rtPath
+	})
 	if len(rf) != 1 {
 		r.undecided(rule, key, pos, "NewParquetReader does not call ReadFooter exactly once")
 		return
@@ -1090,7 +1093,9 @@ func tdCtor(c *Ctx, rule, path, short string) {
 		}
 	}
 	rrgCalls := t.calls(func(c *ssa.Call) bool { return c.Call.StaticCallee() == rrg })
-	seeks := t.calls(func(c *ssa.Call) bool { return c.Call.IsInvoke() && c.Call.Method.Name() == "Seek" && len(c.Call.Args) == 2 })
+	seeks := t.calls(func(c *ssa.Call) bool {
+		return c.Call.IsInvoke() && c.Call.Method.Name() == "Seek" && len(c.Call.Args) == 2
+	})
 	seekOK := false
 	for _, sk := range seeks {
 		if !t.before(rf[0], sk) {
@@ -1132,7 +1137,9 @@ func tdRowGroup(c *Ctx, rule, path, short string) {
 	pos := u.Pos(fn.Pos())
 	t := newTDUnit(u, fn, fn.Params[0], nil)
 	var bad []string
-	reads := t.calls(func(c *ssa.Call) bool { return c.Call.IsInvoke() && c.Call.Method.Name() == "Read" && len(c.Call.Args) == 2 })
+	reads := t.calls(func(c *ssa.Call) bool {
+		return c.Call.IsInvoke() && c.Call.Method.Name() == "Read" && len(c.Call.Args) == 2
+	})
 	if len(reads) != 1 {
 		r.undecided(rule, key, pos, fmt.Sprintf("%d Field.Read call sites", len(reads)))
 		return
